@@ -30,6 +30,7 @@ import (
 	"flag"
 	"fmt"
 	"go/ast"
+	"go/parser"
 	"go/token"
 	"go/types"
 	"os"
@@ -106,6 +107,8 @@ type Prog struct {
 type Out struct {
 	Progs            []Prog            `json:"progs"`
 	AccessMismatches []string          `json:"c_access_mismatches"`
+	MacToU64         []string          `json:"mac_to_u64_funcs"` // every func(net.HardwareAddr) uint64 of the module: "pkg/x.name"
+	U64ToMac         []string          `json:"u64_to_mac_funcs"` // every func(uint64) net.HardwareAddr
 	CStructs         []Struct          `json:"c_structs"`
 	GoStructs        []Struct          `json:"go_structs"`
 	CMaps            []CMap            `json:"c_maps"`
@@ -1191,6 +1194,7 @@ func main() {
 	for _, n := range sortedKeys(nested) {
 		out.Nested = append(out.Nested, n)
 	}
+	out.MacToU64, out.U64ToMac = macFuncs(*repo)
 
 	if *jsonOut != "" {
 		b, _ := json.MarshalIndent(out, "", " ")
@@ -1210,6 +1214,66 @@ func main() {
 	}
 	fmt.Printf("extractlayout: %d C structs, %d C maps, %d Go layouts, %d map uses (%d unbound), %d events, %d missing maps\n",
 		len(out.CStructs), len(out.CMaps), len(out.GoStructs), len(out.Uses), len(out.Unbound), len(out.Events), len(out.MissingMaps))
+}
+
+// macFuncs enumerates, over EVERY non-test Go file of the module (go/parser, no build-tag filtering), the functions
+// and methods whose signature is (net.HardwareAddr) uint64 or (uint64) net.HardwareAddr: the MAC <-> map-key
+// conversions.  The list is pinned by a theorem and by the harness' table, so a new conversion cannot be overlooked.
+func macFuncs(repo string) (to, from []string) {
+	fset := token.NewFileSet()
+	isHW := func(e ast.Expr) bool {
+		se, ok := e.(*ast.SelectorExpr)
+		if !ok {
+			return false
+		}
+		x, ok := se.X.(*ast.Ident)
+		return ok && x.Name == "net" && se.Sel.Name == "HardwareAddr"
+	}
+	isU64 := func(e ast.Expr) bool { id, ok := e.(*ast.Ident); return ok && id.Name == "uint64" }
+	err := filepath.Walk(repo, func(path string, info os.FileInfo, err error) error {
+		if err != nil {
+			return err
+		}
+		if info.IsDir() {
+			if n := info.Name(); n == ".git" || n == "vendor" || n == "node_modules" || n == "testdata" {
+				return filepath.SkipDir
+			}
+			return nil
+		}
+		if !strings.HasSuffix(path, ".go") || strings.HasSuffix(path, "_test.go") {
+			return nil
+		}
+		f, err := parser.ParseFile(fset, path, nil, parser.SkipObjectResolution)
+		if err != nil {
+			die("cannot parse %s: %v", path, err)
+		}
+		rel, _ := filepath.Rel(repo, filepath.Dir(path))
+		for _, d := range f.Decls {
+			fd, ok := d.(*ast.FuncDecl)
+			if !ok || fd.Type.Params == nil || fd.Type.Results == nil || len(fd.Type.Params.List) != 1 || len(fd.Type.Results.List) != 1 ||
+				len(fd.Type.Params.List[0].Names) > 1 || len(fd.Type.Results.List[0].Names) > 1 {
+				continue
+			}
+			pt, rt := fd.Type.Params.List[0].Type, fd.Type.Results.List[0].Type
+			name := rel + "." + fd.Name.Name
+			if fd.Recv != nil && len(fd.Recv.List) == 1 {
+				name = rel + "." + types.ExprString(fd.Recv.List[0].Type) + "." + fd.Name.Name
+			}
+			if isHW(pt) && isU64(rt) {
+				to = append(to, name)
+			}
+			if isU64(pt) && isHW(rt) {
+				from = append(from, name)
+			}
+		}
+		return nil
+	})
+	if err != nil {
+		die("walking %s: %v", repo, err)
+	}
+	sort.Strings(to)
+	sort.Strings(from)
+	return
 }
 
 func sameStruct(a, b Struct) bool {
@@ -1833,6 +1897,8 @@ func emitLean(o *Out, cMaps map[string]CMap, cStructs map[string]Struct) string 
 	b.WriteString("]\n\n/-- every package-level fixed-size struct/array type of pkg/{ebpf,nat,qos,antispoof,walledgarden} -/\n")
 	fmt.Fprintf(&b, "def mirrorStructs : List String := [%s]\n\n", joinQuoted(o.Mirrors))
 	fmt.Fprintf(&b, "/-- types that occur as a struct-typed member of another mirror -/\ndef nestedStructs : List String := [%s]\n\n", joinQuoted(o.Nested))
+	fmt.Fprintf(&b, "/-- every function/method of the module with signature (net.HardwareAddr) uint64 -/\ndef macToU64Funcs : List String := [%s]\n\n", joinQuoted(o.MacToU64))
+	fmt.Fprintf(&b, "/-- every function/method of the module with signature (uint64) net.HardwareAddr -/\ndef u64ToMacFuncs : List String := [%s]\n\n", joinQuoted(o.U64ToMac))
 	b.WriteString("end Bng.Gen.Layout\n")
 	return b.String()
 }
